@@ -1,6 +1,7 @@
 package rules
 
 import (
+	"go/types"
 	"go/token"
 	"strings"
 
@@ -314,6 +315,49 @@ func c13Split(c *Ctx, f *ssa.Function) {
 	})
 	if napp == 0 {
 		c.check(false, "C13.split.pipeline", f, "append of the kept pieces", nil, "the result is not built by appending the trimmed pieces in this function: the filtering step is not recognisable")
+	}
+	// every returned slice is either the filtered pieces or an empty literal
+	for _, ret := range core.Returns(f) {
+		bad := ""
+		seen := map[ssa.Value]bool{}
+		var walk func(v ssa.Value)
+		walk = func(v ssa.Value) {
+			if seen[v] || bad != "" {
+				return
+			}
+			seen[v] = true
+			switch x := v.(type) {
+			case *ssa.Phi:
+				for _, e := range x.Edges {
+					walk(e)
+				}
+			case *ssa.Slice:
+				walk(x.X)
+			case *ssa.Call:
+				switch core.CalleeName(&x.Call) {
+				case "builtin.append":
+					walk(x.Call.Args[0])
+				case "strings.Split":
+					if x != split {
+						bad = "a second Split"
+					}
+				default:
+					bad = "result of " + core.CalleeName(&x.Call)
+				}
+			case *ssa.Alloc:
+				if pt, ok := x.Type().Underlying().(*types.Pointer); ok {
+					if arr, ok := pt.Elem().Underlying().(*types.Array); ok && arr.Len() == 0 {
+						return
+					}
+				}
+				bad = "a literal with elements (" + core.Describe(x) + ")"
+			default:
+				bad = core.Describe(v)
+			}
+		}
+		walk(ret.Results[0])
+		c.check(bad == "", "C13.split.pipeline", f, "every result is the filtered pieces or an empty literal", ret,
+			"a shortcut result bypasses the split / trim / drop-empty pipeline: "+bad)
 	}
 	// every returned slice is non-nil
 	for _, ret := range core.Returns(f) {
